@@ -288,16 +288,17 @@ Fixpoint stack_bs (t : td) : list nat :=
   end.
 Fixpoint all_ok {A} (l : list (res A)) : res (list A) :=
   match l with [] => Ok [] | x :: r => bind x (fun a => bind (all_ok r) (fun b => Ok (a :: b))) end.
-(* lazy_stack of the rebuilt items: their batch sizes must agree *)
+(* a NonTensorStack of rebuilt items whose batch sizes differ (possible only when list-valued payloads were taken
+   for stack dimensions) is a heterogeneous lazy stack or an error depending on ranks and on the parent: not followed *)
 Definition uniform_bs (items : list td) : bool :=
-  match items with [] => true | x :: r => forallb (fun y => shape_eqb (stack_bs y) (stack_bs x)) r end.
+  match items with [] => false | x :: r => forallb (fun y => shape_eqb (stack_bs y) (stack_bs x)) r end.
 Fixpoint from_list (data : payload) : res td :=
   match data with
   | PList l =>
       let nested := forallb is_plist l && forallb (fun x => Nat.eqb (plen x) (plen (hd PNone l))) l in
       bind (all_ok ((fix go (l : list payload) : list (res td) :=
                        match l with [] => [] | x :: r => (if nested then from_list x else Ok (NData [] x)) :: go r end) l))
-           (fun items => if uniform_bs items then Ok (NStack items) else Raised ERuntime)
+           (fun items => if uniform_bs items then Ok (NStack items) else Raised EReinterpret)
   | p => Ok (NData [] p)
   end.
 
